@@ -91,7 +91,7 @@ func checkC18(c *Ctx) {
 	// the epoch processor: called only from end-block under height % 5 == 0
 	var epochFns []*ssa.Function
 	for f := range c.Writers(live, "Set", "CurrentEpochKey") {
-		if !isRoot(f, roots.InitGen) {
+		if !c.isGenesisImport(f) {
 			epochFns = append(epochFns, f)
 		}
 	}
@@ -213,12 +213,12 @@ func checkC18(c *Ctx) {
 	}
 	for _, pre := range []string{"CurrentPricesKey", "CurrentHoldersKey"} {
 		for f := range c.Writers(live, "Set", pre) {
-			ok := f == handler || isRoot(f, roots.InitGen)
+			ok := f == handler || c.isGenesisImport(f)
 			r.Check(ok, "C18.writers", pre+":"+fname(f), p.Pos(f.Pos()), "written by the attestation handler / InitGenesis", pre+" is written by code that is neither the attestation handler nor InitGenesis")
 		}
 	}
 	for f := range c.Writers(live, "Set", "CurrentEpochKey") {
-		ok := isRoot(f, roots.InitGen)
+		ok := c.isGenesisImport(f)
 		for _, ef := range epochFns {
 			if f == ef {
 				ok = true
@@ -317,14 +317,45 @@ func (c *Ctx) checkMedian(h *ssa.Function) {
 	for _, a := range allocsOfType(h, "Price") {
 		for _, v := range ana.FieldStores(a)["Value"] {
 			ex := p.Expr(v, 0)
-			re := regexp.MustCompile(`^phi\(Dec\.QuoInt64\(Dec\.Add\((.+)\[\],(.+)\[\]\),2\),(.+)\[\]\)$`)
-			m := re.FindStringSubmatch(ex)
-			okForm := m != nil && m[1] == m[2] && m[2] == m[3]
+			fn := h
+			var anchors []*ssa.BasicBlock
+			okForm := false
+			if call, ok := v.(*ssa.Call); ok && call.Call.StaticCallee() != nil && call.Call.StaticCallee().Blocks != nil && !p.L.IsGenerated(call.Call.StaticCallee().Pos()) && inPkg(call.Call.StaticCallee(), "oracle/keeper") {
+				// the median is computed by a helper: its returns are the two arms
+				fn = call.Call.StaticCallee()
+				var mean, mid []string
+				bad := false
+				ana.Instrs(fn, func(in ssa.Instruction) {
+					ret, ok := in.(*ssa.Return)
+					if !ok || in.Parent() != fn || len(ret.Results) != 1 {
+						return
+					}
+					anchors = append(anchors, ret.Block())
+					e := p.Expr(ret.Results[0], 0)
+					if m := regexp.MustCompile(`^Dec\.QuoInt64\(Dec\.Add\((.+)\[\],(.+)\[\]\),2\)$`).FindStringSubmatch(e); m != nil && m[1] == m[2] {
+						mean = append(mean, m[1])
+					} else if m := regexp.MustCompile(`^([^()]+)\[\]$`).FindStringSubmatch(e); m != nil {
+						mid = append(mid, m[1])
+					} else if m := regexp.MustCompile(`^phi\(Dec\.QuoInt64\(Dec\.Add\((.+)\[\],(.+)\[\]\),2\),(.+)\[\]\)$`).FindStringSubmatch(e); m != nil && m[1] == m[2] && m[2] == m[3] {
+						mean = append(mean, m[1])
+						mid = append(mid, m[3])
+					} else {
+						bad = true
+					}
+					ex += " | " + e
+				})
+				okForm = !bad && len(mean) == 1 && len(mid) == 1 && mean[0] == mid[0]
+			} else {
+				re := regexp.MustCompile(`^phi\(Dec\.QuoInt64\(Dec\.Add\((.+)\[\],(.+)\[\]\),2\),(.+)\[\]\)$`)
+				m := re.FindStringSubmatch(ex)
+				okForm = m != nil && m[1] == m[2] && m[2] == m[3]
+				anchors = []*ssa.BasicBlock{a.Block()}
+			}
 			// a sort.Slice over the same slice precedes, with an LT comparator
 			okSort := false
-			ana.Instrs(h, func(in ssa.Instruction) {
+			ana.Instrs(fn, func(in ssa.Instruction) {
 				call, ok := in.(*ssa.Call)
-				if !ok {
+				if !ok || in.Parent() != fn {
 					return
 				}
 				d, _ := ana.Describe(&call.Call)
@@ -335,7 +366,13 @@ func (c *Ctx) checkMedian(h *ssa.Function) {
 							if ret, ok := i2.(*ssa.Return); ok && len(ret.Results) == 1 {
 								if cc, _ := ana.UnwrapCall(ret.Results[0]); cc != nil {
 									if dd, _ := ana.Describe(&cc.Call); dd.Recv == "Dec" && (dd.Name == "LT" || dd.Name == "LTE" || dd.Name == "GT" || dd.Name == "GTE") {
-										if call.Block().Dominates(a.Block()) || call.Block() == a.Block() {
+										all := len(anchors) > 0
+										for _, ab := range anchors {
+											if !(call.Block().Dominates(ab) || call.Block() == ab) {
+												all = false
+											}
+										}
+										if all {
 											okSort = true
 										}
 									}
@@ -347,9 +384,9 @@ func (c *Ctx) checkMedian(h *ssa.Function) {
 			})
 			// indexes: len/2 and len/2-1
 			okIdx := true
-			ana.Instrs(h, func(in ssa.Instruction) {
+			ana.Instrs(fn, func(in ssa.Instruction) {
 				ia, ok := in.(*ssa.IndexAddr)
-				if !ok || ia.Parent() != h {
+				if !ok || ia.Parent() != fn {
 					return
 				}
 				if _, isLit := ia.X.(*ssa.Alloc); isLit {
